@@ -1,14 +1,14 @@
 import Driver.Util
 import Driver.BipSpec
-import Driver.WsDecode
-import Driver.WsWrite
+import Driver.WsDecodeSpec
+import Driver.WsWriteSpec
 
 /-! `sonicspec`: the property monitors alone (no model, nothing regenerated from the source). -/
 open Driver
 
 def components : List (String × (Script → Result)) :=
   [("bip", Driver.BipSpec.check),
-   ("wsdecode", Driver.WsDecode.checkSpec),
-   ("wswrite", Driver.WsWrite.checkSpec)]
+   ("wsdecode", Driver.WsDecodeSpec.check),
+   ("wswrite", Driver.WsWriteSpec.check)]
 
 def main (args : List String) : IO UInt32 := Driver.mainWith components args
